@@ -1,7 +1,6 @@
 package main
 
 import (
-	"sync/atomic"
 	"fmt"
 	"io/fs"
 	"math/rand"
@@ -11,6 +10,7 @@ import (
 	"sort"
 	"strings"
 	"sync"
+	"sync/atomic"
 	"time"
 
 	verif "verif"
@@ -29,7 +29,7 @@ type Ctx struct {
 	R     *rand.Rand
 	Quick bool
 	// anchors are repository packages (relative, e.g. "plugin/equal") whose statement coverage is reported
-	Anchors []string
+	Anchors    []string
 	isolations int64
 }
 
